@@ -91,6 +91,7 @@ def tracing_rule(F, R, rid, markers, hb, every_path=True, allow=None, floor=15):
 def run(F, R, ctx):
     _run_main(F, R, ctx)
     pointer_queued_rule(F, R)
+    queued_values_rule(F, R)
 
 
 def _run_main(F, R, ctx):
@@ -497,3 +498,34 @@ def pointer_queued_rule(F, R):
                    "behind it is reachable but is not marked on that path, so a full collection frees its slot" % (fn.short(), b["line"]),
                    fn.loc(b["line"]), sample=True)
     R.floor("C04.q", "pointer extractions in the markers", n, 1)
+
+
+def queued_values_rule(F, R):
+    R.rule("C04.v", "values waiting in a queue are roots: a type handed to scripts as a custom value (impl Custom) that queues "
+                    "values — a field that is a channel endpoint (Sender / Receiver) or a locked collection (Mutex / RwLock of Vec, "
+                    "VecDeque, …) whose element type can own a heap handle (HANDLE(T)) — overrides the collector's child visitor "
+                    "(gc_visit_children). A queued value is reachable (somebody will receive it) but stands in no stack, global or "
+                    "captured variable; with the default visitor (no children) a full collection reclaims its storage")
+    hb = hm.handle_bearing(F)
+    QUEUE = re.compile(r"\b(Sender|Receiver|SyncSender)<|\b(Mutex|RwLock)<[^>]*\b(Vec|VecDeque|BinaryHeap|LinkedList)<")
+    cust = [im for im in F.impls if im.get("trait") and re.search(r"rvals::Custom$", im["trait"])]
+    R.floor("C04.v", "impls of Custom", len(cust), 30)
+    n = 0
+    for im in sorted(cust, key=lambda x: x["self"]):
+        T = im["self"].split("<")[0]
+        adts = [a for a in F.adts_short.get(T, []) if a["name"].startswith("steel")]
+        if not adts:
+            continue
+        a = adts[0]
+        q = [(f["name"], f["ty"]) for v in a["variants"] for f in v["fields"]
+             if QUEUE.search(f["ty"]) and any(m in hb for m in f["mentions"])]
+        if not q:
+            continue
+        n += 1
+        has = any(re.search(r"::(gc_)?visit_children$", i) for i in im.get("items", []))
+        R.inst("C04.v", "%s queues values and has a collector visitor" % T, has,
+               "%s (field %s: %s) queues values that can own heap storage but keeps the default Custom::gc_visit_children, which "
+               "visits nothing: a box or mutable vector that is only in the queue — sent and not yet received, registered and not "
+               "yet executed — is unmarked by a full collection, its slot is handed out again and the receiver reads another "
+               "value's contents" % (T, q[0][0], q[0][1]), "%s:%s" % (a["file"], a["line"]), sample=True)
+    R.floor("C04.v", "custom types that queue values", n, 2)
